@@ -407,7 +407,12 @@ def sweep(rep, invariants):
             if not okd:
                 bad.append((ob, why))
         pan = [p for p in S.eng.panics]
-        if not bad and not pan:
+        from .c16 import unmodelled_panickers_from
+        unm = unmodelled_panickers_from(prog, b)
+        for ub, ut, uq, uwhy in unm:
+            rep.fail("total-sweep", "%s/unmodelled:%s" % (short_name(b), uq.split("::")[-1]),
+                     "%s reaches %s (in %s), which %s; no model bounds its arguments (fail closed)" % (b.path, uq, ub.path, uwhy), site=ub.loc(ut.get("ln")))
+        if not bad and not pan and not unm:
             rep.ok("total-sweep", short_name(b), sample="%d obligation(s) discharged, no panicking callee" % len(S.eng.obligations), nontrivial=bool(S.eng.obligations))
         for ob, why in bad:
             rep.fail("total-sweep", "%s/%s" % (short_name(b), ob["kind"]), "%s can panic (%s): %s" % (b.path, ob["kind"], why), site=b.loc(ob.get("ln")))
